@@ -60,6 +60,110 @@ Theorem c09_manual_stride_zero_rejected : forall (K : consts) (s : st) (md art :
 Proof. exact manual_stride_zero_rejected. Qed.
 Print Assumptions c09_manual_stride_zero_rejected.
 
+(* ---------- auto-compaction ---------- *)
+(* `valid l`: frame seqs strictly increase along the stream (C01 gives seq = position); it holds in every state
+   reachable through the modelled operations *)
+Theorem c09_reachable_valid : forall (K : consts) (ops : list op) (s : st) (acc : list N),
+  valid (log s) -> valid (log (fst (run_ops K s ops acc))).
+Proof. exact reachable_valid. Qed.
+Print Assumptions c09_reachable_valid.
+
+(* Running auto-compaction (not dry, something planned) appends exactly
+     [job_spawned j planned] ++ checkpoints ++ [job_ended j completed made]
+   where the checkpoints are one per planned cut, in ascending to_seq order (`plan_sort planned`, a sorted
+   permutation of the plan), each carrying its plan entry's to_seq / to_message_id and referencing a readable
+   summary artifact whose coverage is that same (to_seq, to_message_id) (`ck_for`); `made` (the response's
+   result and job_ended.result.created) names those frames; j is a job id not used before (auto_outcome). *)
+Theorem c09_auto_creates_planned : forall (K : consts) (ostride omax : option N) (odry : option bool) (s : st),
+  valid (log s) ->
+  opt_or ostride (k_default_stride K) <> 0 ->
+  opt_orb odry false = false ->
+  plan_cuts K (opt_or ostride (k_default_stride K))
+            (clamp (k_maxnew_lo K) (k_maxnew_hi K) (opt_or omax 1)) (log s) <> [] ->
+  exists s' r,
+    auto K ostride omax odry s = (s', Ok r)
+    /\ ar_status r = 2 /\ ar_err r = None /\ ar_job r = Some (fresh_job (log s))
+    /\ ar_planned r = plan_cuts K (opt_or ostride (k_default_stride K))
+                                (clamp (k_maxnew_lo K) (k_maxnew_hi K) (opt_or omax 1)) (log s)
+    /\ auto_outcome K (opt_or ostride (k_default_stride K)) (ar_planned r) s s' (fresh_job (log s)) (ar_result r).
+Proof. exact auto_creates_planned. Qed.
+Print Assumptions c09_auto_creates_planned.
+
+(* the plan is the first max_new not-yet-checkpointed cut points, latest first *)
+Theorem c09_plan_is_first_undone : forall (K : consts) (stride maxnew : N) (l : list ev),
+  plan_cuts K stride maxnew l = firstn (N.to_nat maxnew) (map plan_of (undone K stride l)).
+Proof. exact plan_cuts_undone. Qed.
+Print Assumptions c09_plan_is_first_undone.
+
+(* after a completed run exactly the not-planned remainder is left to do … *)
+Theorem c09_auto_remaining : forall (K : consts) (stride maxnew : N) (s s' : st) (j : N) (made : list created),
+  valid (log s) -> stride <> 0 ->
+  auto_outcome K stride (plan_cuts K stride maxnew (log s)) s s' j made ->
+  undone K stride (log s') = skipn (N.to_nat maxnew) (undone K stride (log s)).
+Proof. exact undone_after. Qed.
+Print Assumptions c09_auto_remaining.
+
+(* … so when max_new covered the backlog, repeating the call appends nothing and creates nothing *)
+Theorem c09_auto_idempotent : forall (K : consts) (ostride omax : option N) (odry : option bool) (s : st),
+  valid (log s) ->
+  opt_or ostride (k_default_stride K) <> 0 ->
+  opt_orb odry false = false ->
+  (length (undone K (opt_or ostride (k_default_stride K)) (log s))
+   <= N.to_nat (clamp (k_maxnew_lo K) (k_maxnew_hi K) (opt_or omax 1)))%nat ->
+  let s' := fst (auto K ostride omax odry s) in
+  exists r', auto K ostride omax odry s' = (s', Ok r') /\ ar_status r' = 0 /\ ar_job r' = None /\ ar_result r' = [].
+Proof. exact auto_idempotent. Qed.
+Print Assumptions c09_auto_idempotent.
+
+(* nothing to do => auto and schedule answer noop and leave the state untouched (any flags) *)
+Theorem c09_noop_appends_nothing : forall (K : consts) (ostride omax : option N) (oblock oexec odry : option bool) (s : st),
+  opt_or ostride (k_default_stride K) <> 0 ->
+  undone K (opt_or ostride (k_default_stride K)) (log s) = [] ->
+  (exists r, auto K ostride omax odry s = (s, Ok r) /\ ar_status r = 0 /\ ar_job r = None /\ ar_planned r = [] /\ ar_result r = [])
+  /\ (exists r, sched K ostride omax oblock oexec odry s = (s, Ok r) /\ sr_decision r = 0 /\ sr_job r = None /\ sr_planned r = []).
+Proof. exact (fun K a b c d e s H1 H2 => conj (auto_noop K a b e s H1 H2) (sched_noop K a b c d e s H1 H2)). Qed.
+Print Assumptions c09_noop_appends_nothing.
+
+(* ---------- manual checkpoints ---------- *)
+(* accepted => the target is a message of the thread (seq and id), exactly one checkpoint frame is appended and its
+   summary is readable with matching coverage; refused => nothing changes *)
+Theorem c09_manual_boundary : forall (K : consts) (r : manual_req) (s : st),
+  match manual K r s with
+  | (s', Err _) => s' = s
+  | (s', Ok (ck, a, ts, tm, rule)) =>
+      In (ts, tm) (msgs (log s))
+      /\ log s' = log s ++ [{| eseq := next_seq (log s); eid := ck; ebody := BCkpt rule a ts (Some tm) |}]
+      /\ exists v, art_read s' a = Some v /\ su_to_seq v = ts
+  end.
+Proof. exact manual_boundary. Qed.
+Print Assumptions c09_manual_boundary.
+
+Theorem c09_manual_non_boundary_rejected : forall (K : consts) (r : manual_req) (s : st),
+  (forall q, mr_to_seq r = Some q -> ~ In q (map fst (msgs (log s)))) ->
+  (forall m, mr_to_mid r = Some m -> ~ In m (map snd (msgs (log s)))) ->
+  (mr_to_seq r <> None \/ mr_to_mid r <> None) ->
+  exists e, manual K r s = (s, Err e).
+Proof. exact manual_non_boundary_rejected. Qed.
+Print Assumptions c09_manual_non_boundary_rejected.
+
+(* non-vacuity: 7 messages, stride 2, max_new 2: a valid reachable state with a non-empty plan; the frames the
+   run appends; what the second call would plan; a backlog that max_new = 32 covers; a refused non-boundary *)
+Example c09_demo_auto :
+  valid (log demo7)
+  /\ plan_cuts real_consts 2 (clamp 1 32 2) (log demo7) = demo7_plan2
+  /\ map plan_of (undone real_consts 2 (log demo7)) = demo7_plan2 ++ [{| pl_ord := 2; pl_seq := 2; pl_mid := 3 |}]
+  /\ map (fun e => enc_body (ebody e)) (skipn 9 (log (fst (auto real_consts (Some 2) (Some 2) None demo7))))
+     = [ [3; 1; 2; 2; 6; 7; 8; 4; 5; 6]; [2; 3; 1; 5; 1; 6]; [2; 3; 2; 7; 1; 8]; [4; 1; 0; 2; 11; 1; 5; 6; 12; 2; 7; 8] ]
+  /\ plan_cuts real_consts 2 (clamp 1 32 2) (log (fst (auto real_consts (Some 2) (Some 2) None demo7)))
+     = [{| pl_ord := 2; pl_seq := 2; pl_mid := 3 |}]
+  /\ (length (undone real_consts 2 (log demo7)) <= N.to_nat (clamp 1 32 32))%nat.
+Proof. exact (conj demo7_valid demo7_facts). Qed.
+
+Example c09_demo_manual_non_boundary :
+  (forall q, mr_to_seq demo_manual_req = Some q -> ~ In q (map fst (msgs (log demo7))))
+  /\ manual real_consts demo_manual_req demo7 = (demo7, Err 5).
+Proof. exact demo_manual_non_boundary. Qed.
+
 (* non-vacuity: a reachable thread with two cut points, one checkpointed twice (the later frame wins) *)
 Example c09_demo_cut_points :
   map (fun c => (cp_ord c, cp_seq c, cp_mid c, cp_done c, cp_ck c)) (cut_points real_consts 2 32 demo_log)
